@@ -1,5 +1,6 @@
 (* driver for suite "tcpmux" (C15).
-   One line = one history:  cfg ft wbuf laddrok rt ; op ... ; op ...  =>  obs ; obs ; ... ; cleanup
+   One line = one history:  cfg ft wbuf laddrok rt wdrop byid ; op ... ; op ...  =>  obs ; obs ; ... ; cleanup
+   (wdrop, byid: which of two behaviours the implementation has, probed by the harness)
    The model (Model.step) is folded over the operations; after every operation the mux's own
    goroutines are run until everything blocks (Model.settle), as the harness waits for quiescence.
    The operations rmget / hcloseget / expireget do not wait between their two halves: the model is
@@ -169,10 +170,13 @@ let is_racy = function ("rmget" | "hcloseget" | "expireget") :: _ -> true | _ ->
 
 let simulate cfgseg (ops : string list list) (obs : string list list) (races : bool list) : string list list =
   let ft, wbuf, laddr = match cfgseg with
-    | ["cfg"; ft; wbuf; laddr; _rt; _wdrop] -> bool_of_tok ft, bool_of_tok wbuf, bool_of_tok laddr
+    | "cfg" :: ft :: wbuf :: laddr :: _ -> bool_of_tok ft, bool_of_tok wbuf, bool_of_tok laddr
     | _ -> failwith "bad cfg segment" in
-  let wdrop = match cfgseg with [_; _; _; _; _; w] -> bool_of_tok w | _ -> true in
-  let cfg = { Model.cf_first_timeout = ft; cf_alive = true; cf_wbuf = wbuf; cf_addr_ok = laddr; cf_wdrop = wdrop } in
+  let wdrop, byid = match cfgseg with
+    | [_; _; _; _; _; w; b] -> bool_of_tok w, bool_of_tok b
+    | _ -> failwith "bad cfg segment (cfg ft wbuf laddrok rt wdrop byid)" in
+  let cfg = { Model.cf_first_timeout = ft; cf_alive = true; cf_wbuf = wbuf; cf_addr_ok = laddr;
+              cf_wdrop = wdrop; cf_byid = byid } in
   let s = { st = Model.init; cfg; ft; known = Hashtbl.create 16; ffdone = Hashtbl.create 16;
             cliclosed = Hashtbl.create 16; handles = Hashtbl.create 16; close_called = false } in
   let races = ref races in
@@ -243,7 +247,7 @@ let vop_of (op : string list) (o : string list) : (Model.vop * Model.vobs) optio
 
 let monitor cfgseg ops osegs =
   let ft, wbuf, laddr = match cfgseg with
-    | ["cfg"; ft; wbuf; laddr; _rt; _wdrop] -> bool_of_tok ft, bool_of_tok wbuf, bool_of_tok laddr
+    | "cfg" :: ft :: wbuf :: laddr :: _ -> bool_of_tok ft, bool_of_tok wbuf, bool_of_tok laddr
     | _ -> failwith "bad cfg segment" in
   try
     let rec go ops obs = match ops, obs with
